@@ -21,7 +21,7 @@ from symx import core, patch, npfacade
 from symx.fs import SymFS
 
 RECIPE = os.path.join(common.VERIF, 'recipes', 'r_pipe.py')
-RECIPE2 = os.path.join(common.VERIF, 'recipes', 'r_pipe2.py')       # a second recipe, so that a history can cook twice
+RECIPE2 = os.path.join(common.VERIF, 'recipes', 'alt', 'r_pipe.py')   # a second recipe (another directory, the SAME file name), so that a history can cook twice
 
 OPS = [
     ('colander', 'all', None), ('colander', 'reversed', None), ('colander', 'first', None), ('colander', 'all', 0), ('colander', 'last-two', 0),
